@@ -814,6 +814,180 @@ func runC18(e *hk.Env) (retErr error) {
 			}
 		}
 	}
+	// ---- directory-like destination SPELLINGS: the destination text ends in a path separator or in "/." and names the
+	// source's own parent directory, another existing directory (optionally already holding a file of the source's base
+	// name), or a missing directory - written directly or through a symbolic link to the directory; the source is a
+	// regular file or a symbolic link (in its directory) to a data file elsewhere. For the code at HEAD all of them fail
+	// (the model's "destination is a directory" / "parent missing" failure). The property does not forbid reading "dir/"
+	// like cp(1) (copy into the directory under the source's base name), so "the destination" is the path as given if it
+	// resolves to a regular file, else <dir>/<base name of the source path>; when <dir> is the directory of the source
+	// path that IS the source (an alias). "D" lines (Check/C18.v: spec_dirlike, dirlike_matches):
+	//
+	//	D <op> <modelkind 6|7> <otherdev> 0 <nonempty> <ok> <srcpresent> <srcorig> <dstgiven> <thirdok> <dstinside> <selfparent> <srcsym> <size> <variant> <class> <spelling> <dirrel> <preexisting>
+	dirSpellNames := []string{"dir/", "dir//", "dir/.", "symlink-to-dir/", "symlink-to-dir/.", "symlink-to-dir//"}
+	dirRelNames := []string{"source's-own-parent", "another-directory", "missing-directory"}
+	byDirlike := map[string]int{}
+	dirlike := func(op, rel, spell int, srcSym, other, preexist bool, size, variant, class int) {
+		caseNo++
+		base := filepath.Join(rootA, fmt.Sprintf("c%d", caseNo))
+		dstBase := base
+		if other {
+			dstBase = filepath.Join(rootB, fmt.Sprintf("c%d", caseNo))
+		}
+		defer os.RemoveAll(base)
+		defer os.RemoveAll(dstBase)
+		srcDir, dstDir, work := filepath.Join(base, "s"), filepath.Join(dstBase, "d"), filepath.Join(base, "w")
+		dataDir := filepath.Join(dstBase, "data") // on the other device when there is one
+		if os.MkdirAll(srcDir, 0o755) != nil || os.MkdirAll(dstDir, 0o755) != nil || os.MkdirAll(work, 0o755) != nil || os.MkdirAll(dataDir, 0o755) != nil {
+			e.Count("setup_failed", 1)
+			return
+		}
+		orig := makeContent(class, size, fill)
+		origSum := sha256.Sum256(orig)
+		src := filepath.Join(srcDir, "src file.dat")
+		if srcSym {
+			data := filepath.Join(dataDir, "payload.bin")
+			if os.WriteFile(data, orig, 0o644) != nil || os.Symlink(data, src) != nil {
+				e.Count("setup_failed", 1)
+				return
+			}
+		} else if os.WriteFile(src, orig, 0o644) != nil {
+			e.Count("setup_failed", 1)
+			return
+		}
+		third1, third2 := filepath.Join(srcDir, "third.dat"), filepath.Join(dstDir, "third.dat")
+		thirdContent := []byte("third party " + strconv.Itoa(caseNo))
+		os.WriteFile(third1, thirdContent, 0o644)
+		os.WriteFile(third2, thirdContent, 0o644)
+		var dir string
+		switch rel {
+		case 0:
+			dir = srcDir
+		case 1:
+			dir = dstDir
+			if preexist && os.WriteFile(filepath.Join(dir, filepath.Base(src)), append([]byte("OTHER-FILE-"), content(size/2+3)...), 0o644) != nil {
+				e.Count("setup_failed", 1)
+				return
+			}
+		default:
+			dir = filepath.Join(dstDir, "nodir")
+		}
+		dst := dir
+		if spell >= 3 {
+			dst = filepath.Join(work, "lnk-dir")
+			if os.Symlink(dir, dst) != nil {
+				e.Count("setup_failed", 1)
+				return
+			}
+		}
+		dst += []string{"/", "//", "/.", "/", "/.", "//"}[spell]
+		if cl := filepath.Clean(dst); !(strings.HasPrefix(cl, rootA+"/") || (rootB != "" && strings.HasPrefix(cl, rootB+"/"))) {
+			retErr = fmt.Errorf("refusing path outside the scratch roots: %s", dst)
+			return
+		}
+		var callErr error
+		panicked := ""
+		func() {
+			defer func() {
+				if p := recover(); p != nil {
+					panicked = fmt.Sprint(p)
+				}
+			}()
+			if op == 0 {
+				_, callErr = osutil.CopyFile(src, dst)
+			} else {
+				callErr = osutil.MoveFile(src, dst)
+			}
+		}()
+		ok := callErr == nil && panicked == ""
+		_, lerr := os.Lstat(src)
+		srcPresent := lerr == nil
+		sameAsOrig := func(p string) bool {
+			if st, err := os.Stat(p); err != nil || !st.Mode().IsRegular() {
+				return false
+			}
+			b, err := os.ReadFile(p)
+			return err == nil && len(b) == len(orig) && sha256.Sum256(b) == origSum
+		}
+		srcOrig := sameAsOrig(src)
+		dstGiven := sameAsOrig(dst)
+		dstInside := sameAsOrig(filepath.Join(dir, filepath.Base(src)))
+		t1, err1 := os.ReadFile(third1)
+		t2, err2 := os.ReadFile(third2)
+		thirdOK := err1 == nil && err2 == nil && bytes.Equal(t1, thirdContent) && bytes.Equal(t2, thirdContent)
+		mkind := kDir
+		if rel == 2 {
+			mkind = kParentMissing
+		}
+		fields := []string{strconv.Itoa(op), strconv.Itoa(mkind), b2s(other), "0", b2s(size > 0), b2s(ok), b2s(srcPresent), b2s(srcOrig),
+			b2s(dstGiven), b2s(thirdOK), b2s(dstInside), b2s(rel == 0), b2s(srcSym), strconv.Itoa(size), strconv.Itoa(variant), strconv.Itoa(class),
+			strconv.Itoa(spell), strconv.Itoa(rel), b2s(preexist)}
+		e.Case(append([]string{"D"}, fields...)...)
+		byDirlike[[]string{"CopyFile", "MoveFile"}[op]+"/"+dirRelNames[rel]+"/"+dirSpellNames[spell]+map[bool]string{false: "", true: "/symlink-source"}[srcSym]+map[bool]string{false: "", true: "/other-device"}[other]]++
+		byOutcome[fmt.Sprintf("ok=%v src_present=%v src_orig=%v dst_orig=%v", ok, srcPresent, srcOrig, dstGiven || dstInside)]++
+		// oracle: the property statement, "the destination" = the path given or <dir>/<base of the source path>
+		dstOrig := dstGiven || dstInside
+		reason := ""
+		switch {
+		case panicked != "":
+			reason = "panic"
+		case !thirdOK:
+			reason = "third-party-file-changed"
+		case ok && !dstOrig:
+			reason = "nil-but-destination-differs-from-original-source"
+		case srcSym && op == 1: // a symbolic link as MoveFile's source may be moved as a link: nothing more on success
+			if !ok && !(srcPresent && srcOrig) {
+				reason = "error-and-source-lost-or-changed"
+			}
+		case ok && op == 0 && !(srcPresent && srcOrig):
+			reason = "nil-but-source-changed"
+		case ok && op == 1 && srcPresent && !(rel == 0 && srcOrig):
+			reason = "nil-but-source-still-present-or-damaged"
+		case !ok && !(srcPresent && srcOrig):
+			reason = "error-and-source-lost-or-changed"
+		}
+		if reason != "" {
+			viol++
+			e.Case(append([]string{"VIOL", reason + "/directory-like-destination:" + dirRelNames[rel] + ":" + dirSpellNames[spell]}, fields...)...)
+		}
+		if caseNo%41 == 7 {
+			msg := "nil"
+			if callErr != nil {
+				msg = strings.ReplaceAll(strings.ReplaceAll(callErr.Error(), dstBase, "<B>"), base, "<A>")
+			}
+			e.Sample("samples", map[string]any{"op": []string{"CopyFile", "MoveFile"}[op], "dest": "directory-like spelling " + dirSpellNames[spell] + " of " + dirRelNames[rel],
+				"source_is_symlink": srcSym, "other_device": other, "size": size, "error": msg, "src_present": srcPresent, "src_orig": srcOrig, "dst_orig": dstOrig}, 8)
+		}
+	}
+	dirSizes := []int{0, 1, 4096, 70000}
+	if e.Thorough() {
+		dirSizes = []int{0, 1, 10, 4096, 32769, 70000, 1 << 20}
+	}
+	for _, size := range dirSizes {
+		for op := 0; op < 2; op++ {
+			for rel := 0; rel < 3; rel++ {
+				for spell := range dirSpellNames {
+					for _, srcSym := range []bool{false, true} {
+						for _, other := range devs {
+							if other && rel == 0 && !srcSym {
+								continue // the source's own parent is on the source's device; with a symlink source the data file is on the other one
+							}
+							variant++
+							class := 0
+							if size > 0 && variant%5 == 0 {
+								class = 1
+							}
+							dirlike(op, rel, spell, srcSym, other, rel == 1 && variant%2 == 0, size, variant, class)
+						}
+					}
+				}
+				if retErr != nil {
+					return retErr
+				}
+			}
+		}
+	}
+	e.Stats["by_directory_like_destination"] = byDirlike
 	// ---- sources whose Stat().Size() is not what reading yields: a stable /proc file (read only; CopyFile only; never a
 	// destination, never MoveFile) and a FIFO in the sandbox fed by a writer goroutine. Outside the file-system model:
 	// "S" lines, judged by the specification on the observed outcome (and by the Go-side oracle) only.
